@@ -94,7 +94,19 @@ def _order_ok(locs: list, length: int) -> bool:
         origin-crossing ones are put among them is left open (the code sorts them by their distance before the
         origin, except that a whole-record area precedes the crossing areas it contains) """
     keys = [(min(p[0] for p in loc["parts"]), -len(ring.bases(loc))) for loc in locs if not _crossing(loc)]
-    return keys == sorted(keys)
+    if keys != sorted(keys):
+        return False
+    # the origin-crossing ones, among themselves, are in the order of where they start before the origin
+    # (the longest first when they start together)
+    # (pairs in which one contains the other are left open: the code puts containers first)
+    crossing = [loc for loc in locs if _crossing(loc) and len(ring.bases(loc)) < length]
+    for i, one in enumerate(crossing):
+        for two in crossing[i + 1:]:
+            if ring.bases(one) <= ring.bases(two) or ring.bases(two) <= ring.bases(one):
+                continue
+            if max(p[0] for p in one["parts"]) > max(p[0] for p in two["parts"]):
+                return False
+    return True
 
 
 def _area_snapshot(record, length: int, circular: bool) -> dict:
@@ -770,7 +782,21 @@ def sig_span_longer_than_union(sub, spec, clause, detail) -> bool:
     return False
 
 
+def sig_crossing_order_with_whole_record_area(sub, spec, clause, detail) -> bool:
+    """ numbering_order fails AND a whole-record area [0:L) of that kind is present AND the features that do not cross
+        the origin are in order among themselves (i.e. only origin-crossing features are out of order) """
+    if clause != "numbering_order" or not isinstance(detail, dict):
+        return False
+    features = detail.get("features", [])
+    length = spec.get("L")
+    if not any(parts == [[0, length]] for parts in features):
+        return False
+    plain = [(min(p[0] for p in parts), -sum(p[1] - p[0] for p in parts)) for parts in features if len(parts) == 1]
+    return plain == sorted(plain)
+
+
 SIGNATURES = {
+    "crossing_order_with_whole_record_area": sig_crossing_order_with_whole_record_area,
     "sweep_misses_pre_origin": sig_sweep_misses_pre_origin,
     "span_longer_than_union": sig_span_longer_than_union,
 }
